@@ -748,7 +748,22 @@ pub(crate) fn read_filter_block(
 	if location.size() == 0 {
 		return Err(Error::FilterBlockEmpty);
 	}
-	let buf = read_bytes(src, location)?;
+	let buf = read_bytes(Arc::clone(&src), location)?;
+
+	// The filter block carries the same trailer (compression type + masked
+	// checksum) as every other block. Verify it: a damaged filter answers
+	// "definitely absent" for keys that are present, or indexes out of bounds.
+	let trailer = read_bytes(
+		src,
+		&BlockHandle::new(location.offset() + location.size(), BLOCK_COMPRESS_LEN + BLOCK_CKSUM_LEN),
+	)?;
+	let want = unmask(u32::decode_fixed(&trailer[BLOCK_COMPRESS_LEN..]).unwrap());
+	if !verify_table_block(&buf, trailer[0], want) {
+		return Err(Error::from(SSTableError::ChecksumVerificationFailed {
+			block_offset: location.offset() as u64,
+		}));
+	}
+	let buf = decompress_block(&buf, CompressionType::try_from(trailer[0])?)?;
 	Ok(FilterBlockReader::new(buf, policy))
 }
 
